@@ -54,3 +54,115 @@ Proof.
   - specialize (I4 eq_refl). specialize (I2 I4). destruct spc0; try reflexivity; destruct I2.
   - destruct I3 as [_ I3]. specialize (I3 eq_refl). destruct spc0; try reflexivity; discriminate.
 Qed.
+
+Definition R_after_rc (s : st) (m : astate) : Prop :=
+  inv3 s /\ inv5 s /\ a_bad m = false /\
+  a_closed m = (match c_pc s with CFin => Some (c_ok s) | _ => None end).
+
+Lemma R_after_rc_tau sc s m s1 :
+  R_after_rc s m -> In (None, s1) (step true sc s) -> R_after_rc s1 m.
+Proof.
+  intros [I3 [I5 [B E]]] H. split; [eapply inv3_step; eauto|]. split; [eapply inv5_step; eauto|].
+  split; [exact B|]. rewrite E. clear I3 I5 E. dst s; cbn in *.
+  split_step H; crunch H; cbn in *; splitifs; try reflexivity.
+Qed.
+
+Lemma R_after_rc_vis sc s m l s1 :
+  R_after_rc s m -> In (Some l, s1) (step true sc s) ->
+  a_bad (after_step true m l) = false /\ R_after_rc s1 (after_step true m l).
+Proof.
+  intros [I3 [I5 [B E]]] H.
+  assert (Q := rc_closed_quiet _ I5).
+  assert (I3' := inv3_step _ _ _ _ I3 H). assert (I5' := inv5_step _ _ _ _ I3 I5 H).
+  unfold R_after_rc. split; [|split; [exact I3'|split; [exact I5'|]]]; clear I3 I5 I3' I5';
+  destruct m as [mc mm ms mb]; dst s; cbn in *; subst mc mb;
+  split_step H; crunch H; cbn in *; splitifs; try (split; reflexivity); try reflexivity;
+  try (destruct cpc0; try discriminate; specialize (Q eq_refl); discriminate).
+Qed.
+
+(** ** a bare Base/Cache client: at most one message after a successful Close *)
+
+Definition post_install (p : spc) : bool :=
+  match p with
+  | SRecv _ | SItem _ | SDeliver _ _ _ | SSyncEnd _ | SChk _ | SRunClose | SRet _ | SFin => true
+  | _ => false
+  end.
+
+Definition inv6 (s : st) : Prop :=
+  (match b_impl s with NoImpl => True | Impl _ => post_install (s_pc s) = true end) /\
+  (match c_pc s with
+   | CBaseHold | CWait | CRet | CFin =>
+       c_ok s = true -> b_closed s = true /\ b_impl s <> NoImpl
+   | _ => True end).
+
+Lemma inv6_step sc s l s1 : inv6 s -> In (l, s1) (step false sc s) -> inv6 s1.
+Proof.
+  intros I H. dst s; unfold inv6 in *; cbn in *;
+  split_step H; crunch H; cbn in *; splitifs;
+  try solve [intuition (try congruence; try discriminate)];
+  try destruct cpc0; cbn in *;
+  intuition (try congruence; try discriminate).
+Qed.
+
+Definition seen_ok (s : st) (m : astate) : Prop :=
+  match a_seen m with
+  | None => True
+  | Some c => match s_pc s with
+              | SDeliver i _ _ | SSyncEnd i => c = (s_att s, i)
+              | SChk _ | SRet _ | SFin => True
+              | _ => False
+              end
+  end.
+
+Definition R_after_base (s : st) (m : astate) : Prop :=
+  inv6 s /\ a_bad m = false /\
+  a_closed m = (match c_pc s with CFin => Some (c_ok s) | _ => None end) /\
+  (match s_pc s with
+   | SItem i | SDeliver i _ _ | SSyncEnd i => a_curmsg m = (s_att s, i)
+   | _ => True end) /\
+  (match c_pc s with CFin => if c_ok s then seen_ok s m else a_seen m = None
+   | _ => a_seen m = None end).
+
+Lemma R_after_base_tau sc s m s1 :
+  R_after_base s m -> In (None, s1) (step false sc s) -> R_after_base s1 m.
+Proof.
+  intros [I6 [B [E [Cm Sn]]]] H. split; [eapply inv6_step; eauto|]. split; [exact B|].
+  destruct m as [mc mm ms mb]; dst s; unfold inv6, seen_ok in *; cbn in *; subst mc mb;
+  split_step H; crunch H; cbn in *; splitifs;
+  try solve [intuition (try congruence; try discriminate)];
+  try destruct cpc0; try destruct cok0; try destruct ms; cbn in *;
+  intuition (try congruence; try discriminate).
+Qed.
+
+Lemma pair_eqb_refl c : pair_eqb c c = true.
+Proof. unfold pair_eqb. rewrite !Nat.eqb_refl. reflexivity. Qed.
+
+Lemma R_after_base_vis sc s m l s1 :
+  R_after_base s m -> In (Some l, s1) (step false sc s) ->
+  a_bad (after_step false m l) = false /\ R_after_base s1 (after_step false m l).
+Proof.
+  intros [I6 [B [E [Cm Sn]]]] H.
+  assert (I6' := inv6_step _ _ _ _ I6 H).
+  unfold R_after_base. split; [|split; [exact I6'|]]; clear I6';
+  destruct m as [mc mm ms mb]; dst s; unfold inv6, seen_ok in *; cbn in *; subst mc mb;
+  split_step H; crunch H; cbn in *; splitifs; cbn in *;
+  rewrite ?pair_eqb_refl;
+  try solve [intuition (try congruence; try discriminate)];
+  try destruct cpc0; try destruct cok0; try destruct ms; cbn in *; subst; rewrite ?pair_eqb_refl;
+  intuition (try congruence; try discriminate).
+Qed.
+
+Definition astate0 : astate :=
+  {| a_closed := None; a_curmsg := (0, 0); a_seen := None; a_bad := false |}.
+
+Theorem model_k_after rc sc tr s :
+  run (step rc sc) init tr s -> k_after rc tr = None.
+Proof.
+  intros H. unfold k_after. destruct rc.
+  - destruct (monitor_holds (step true sc) (after_step true) a_bad R_after_rc
+                (R_after_rc_tau sc) (R_after_rc_vis sc) _ _ _ H astate0 0) as [G _]; [|exact G].
+    unfold R_after_rc, inv3, inv5, init; cbn. intuition (try congruence; try discriminate).
+  - destruct (monitor_holds (step false sc) (after_step false) a_bad R_after_base
+                (R_after_base_tau sc) (R_after_base_vis sc) _ _ _ H astate0 0) as [G _]; [|exact G].
+    unfold R_after_base, inv6, init; cbn. intuition (try congruence; try discriminate).
+Qed.
